@@ -79,6 +79,18 @@ Theorem C11_single_key_mutation_is_one_transaction : single_txn badger_txns = tr
 Proof. exact generated_single_txn. Qed.
 Print Assumptions C11_single_key_mutation_is_one_transaction.
 
+(* The order in which MergeLabels and CleaveLabel write mapping and indices (table write_order of
+   Gen/Locks.v) is the one their serialisability argument needs: see required_write_order. *)
+Theorem C11_write_order : write_order_ok write_order = true.
+Proof. exact generated_write_order_ok. Qed.
+Print Assumptions C11_write_order.
+
+(* At every site the checks that refuse a request are made in the critical section of the write
+   they guard (table site_checks), up to the recorded exceptions of MergeLabels. *)
+Theorem C11_validated_where_written : checks_ok site_checks = true.
+Proof. exact generated_checks_ok. Qed.
+Print Assumptions C11_validated_where_written.
+
 (* Any number of concurrent requests, in any mix, at sites the table shows covered by the same
    mutex (for instance cleaves and label-index changes of one body): every accepted complete
    schedule equals the sequential run in acquisition order. *)
@@ -146,5 +158,8 @@ Proof. vm_compute. reflexivity. Qed.
 Example C11_shard_keys_nonempty :
   shard_keys <> [] /\
   shard_keys_agree [("f", "mu", "_ % n"); ("g", "mu", "(_ ^ (_ >> 32)) % n")] = false /\
-  single_txn [("Put", 2, 1)]%nat = false /\ badger_txns <> [].
+  single_txn [("Put", 2, 1)]%nat = false /\ badger_txns <> [] /\
+  write_order_ok [("labelmap.MergeLabels", ["target"; "merged"; "mapping"]);
+                  ("labelmap.CleaveLabel", ["cleaved"; "target"; "mapping"])] = false /\
+  checks_ok [("labelmap.CleaveLabel", "target", 3, 1)]%nat = false.
 Proof. vm_compute. repeat split; discriminate. Qed.
